@@ -617,6 +617,11 @@ DataView dataSlice(const DataArray &array, const std::vector<double> &start, con
         // unit: bring the given one into the unit of the dimension (the same scaling positionToIndex would apply)
         std::string unit_i = my_units[i];
         DimensionType dim_type = dim.dimensionType();
+        if (i >= start.size() && i >= end.size() && i < units.size() &&
+            (dim_type == DimensionType::Sample || dim_type == DimensionType::Range)) {
+            // neither bound was given: both are filled in from the dimension and are in ITS unit
+            unit_i = getDimensionUnit(dim);
+        }
         if ((i < start.size()) != (i < end.size()) && i < units.size() &&
             (dim_type == DimensionType::Sample || dim_type == DimensionType::Range)) {
             std::string dim_unit = getDimensionUnit(dim);
